@@ -3,6 +3,7 @@ package guardiand
 import (
 	"context"
 	"encoding/hex"
+	"math"
 	"time"
 
 	gossipv1 "github.com/alephium/wormhole-fork/node/pkg/proto/gossip/v1"
@@ -42,6 +43,14 @@ func handleReobservationRequests(
 				}
 			}
 		case req := <-obsvReqC:
+			if req.ChainId > math.MaxUint16 {
+				// vaa.ChainID is 16 bits wide: converting would route the request to the chain with the same low bits.
+				logger.Error("chain ID out of range for reobservation request",
+					zap.Uint32("chain_id", req.ChainId),
+					zap.String("tx_hash", hex.EncodeToString(req.TxHash)))
+				continue
+			}
+
 			r := cachedRequest{
 				chainId: vaa.ChainID(req.ChainId),
 				txHash:  hex.EncodeToString(req.TxHash),
